@@ -230,7 +230,7 @@ func runC04(p *Program, r *Result) {
 		for i, c := range callsTo(dec, pkgAge+".headerMAC") {
 			facts := tb.FactsAt(c.Block())
 			a, ok := findFact(facts, func(a Atom) bool {
-				return a.Kind == "cmp" && a.Op == "!=" && a.Y.Op == "Nil" && a.X.Op == "Phi" && a.X.V == stripConv(c.Common().Args[0])
+				return a.Kind == "cmp" && a.Op == "!=" && a.Y.Op == "Nil" && a.X.Op == "Phi" && a.X.V == tb.Term(stripConv(c.Common().Args[0])).V
 			})
 			if ok {
 				r.OK(sub, callKey("headerMAC", i)+":fileKey!=nil", r.pos(c), "", guardWitness(p, a))
